@@ -18,6 +18,8 @@ func (w *World) rulesHeader(p *Pkg, m *parseModel, add func(ok bool, rule, inst 
 		return
 	}
 	body := m.fd.Body.List
+	// declarations without a value and `_ = x` ahead of the guard do nothing
+	body = skipInert(body)
 	fail := func(n ast.Node, why string) {
 		add(false, "R01.header", "ParseVector.header", n, why)
 		add(false, "R13.guard", "ParseVector.header", n, why)
@@ -86,24 +88,66 @@ func (w *World) rulesHeader(p *Pkg, m *parseModel, add func(ok bool, rule, inst 
 		fail(body[0], "the first statement of ParseVector is not `if !strings.HasPrefix(vector, header) { return nil, ErrInvalidCVSSHeader }`")
 		return
 	}
-	not, ok := ifs.Cond.(*ast.UnaryExpr)
-	if !ok || not.Op != token.NOT {
-		fail(ifs, "header guard is not a negated prefix test (extra alternatives or a different predicate): undecided")
-		return
+	// the spelled-out prefix test: len(v) < len(h) || v[:len(h)] != h
+	h := ""
+	spelled := false
+	if be, ok := ifs.Cond.(*ast.BinaryExpr); ok && be.Op == token.LOR {
+		lenOfParam := func(e ast.Expr) bool {
+			c, ok := e.(*ast.CallExpr)
+			if !ok || len(c.Args) != 1 {
+				return false
+			}
+			id, ok := c.Fun.(*ast.Ident)
+			return ok && id.Name == "len" && identObj(info, c.Args[0]) == m.param
+		}
+		okLen, okCmp := false, false
+		if l, ok := be.X.(*ast.BinaryExpr); ok && l.Op == token.LSS && lenOfParam(l.X) {
+			if u, ok := constUint(info, l.Y); ok && int(u) == len(ov.Header) {
+				okLen = true
+			}
+		}
+		if r, ok := be.Y.(*ast.BinaryExpr); ok && r.Op == token.NEQ {
+			sl, other := r.X, r.Y
+			if _, isSl := sl.(*ast.SliceExpr); !isSl {
+				sl, other = r.Y, r.X
+			}
+			if se, ok := sl.(*ast.SliceExpr); ok && identObj(info, se.X) == m.param && se.Low == nil && se.High != nil && !se.Slice3 {
+				if u, ok := constUint(info, se.High); ok && int(u) == len(ov.Header) {
+					if hs, ok := constString(info, other); ok {
+						h = hs
+						okCmp = true
+					}
+				}
+			}
+		}
+		if okLen && okCmp {
+			spelled = true
+			if h != ov.Header {
+				fail(ifs, fmt.Sprintf("header guard tests the prefix %q, the specification header is %q", h, ov.Header))
+				return
+			}
+		}
 	}
-	call, ok := not.X.(*ast.CallExpr)
-	if !ok || !isStringsFunc(calleeOf(info, call), "HasPrefix") || len(call.Args) != 2 {
-		fail(ifs, "header guard does not use strings.HasPrefix (a Contains/HasSuffix/EqualFold test accepts strings that do not start with the header)")
-		return
-	}
-	if identObj(info, call.Args[0]) != m.param {
-		fail(ifs, "header guard does not test the input string")
-		return
-	}
-	h, ok := constString(info, call.Args[1])
-	if !ok || h != ov.Header {
-		fail(ifs, fmt.Sprintf("header guard tests the prefix %q, the specification header is %q", h, ov.Header))
-		return
+	if !spelled {
+		not, ok := ifs.Cond.(*ast.UnaryExpr)
+		if !ok || not.Op != token.NOT {
+			fail(ifs, "header guard is not a negated prefix test (extra alternatives or a different predicate): undecided")
+			return
+		}
+		call, ok := not.X.(*ast.CallExpr)
+		if !ok || !isStringsFunc(calleeOf(info, call), "HasPrefix") || len(call.Args) != 2 {
+			fail(ifs, "header guard does not use strings.HasPrefix (a Contains/HasSuffix/EqualFold test accepts strings that do not start with the header)")
+			return
+		}
+		if identObj(info, call.Args[0]) != m.param {
+			fail(ifs, "header guard does not test the input string")
+			return
+		}
+		h, ok = constString(info, call.Args[1])
+		if !ok || h != ov.Header {
+			fail(ifs, fmt.Sprintf("header guard tests the prefix %q, the specification header is %q", h, ov.Header))
+			return
+		}
 	}
 	if !retOK(ifs.Body.List) {
 		fail(ifs, "a wrong header is not answered with (nil, ErrInvalidCVSSHeader)")
@@ -345,13 +389,14 @@ func (w *World) rulesReturns(p *Pkg, m *parseModel, km *KvmModel, add func(ok bo
 		}
 		add(true, "R01.pair", name("sentinel:"+sv.Name()), rs, "(nil, "+sv.Name()+"): package-level sentinel, provably non-nil")
 		// classify the guard
+		effBody := skipInert(fd.Body.List)
 		kind, want := "", ""
 		switch {
 		case cc != nil && cc.List == nil:
 			kind = "cursor-exhausted(default arm)"
-		case ifs != nil && inBody && (ifs == fd.Body.List[0] || (len(fd.Body.List) > 1 && ifs == fd.Body.List[1])) && ov.Header != "" && sv.Name() == "ErrInvalidCVSSHeader":
+		case ifs != nil && inBody && len(effBody) > 0 && (ifs == effBody[0] || (len(effBody) > 1 && ifs == effBody[1])) && ov.Header != "" && sv.Name() == "ErrInvalidCVSSHeader":
 			kind, want = "header", "ErrInvalidCVSSHeader"
-		case ifs != nil && inBody && ifs == fd.Body.List[0] && ov.Header != "":
+		case ifs != nil && inBody && len(effBody) > 0 && ifs == effBody[0] && ov.Header != "":
 			kind, want = "header", "ErrInvalidCVSSHeader"
 		case m.autoOK && (inLoop(rs) || afterLoop(rs)) && !mentionsInput(rs):
 			// the cursor automaton is decided: which error each cursor
@@ -469,4 +514,35 @@ func stackOf(root, target ast.Node) []ast.Node {
 		return out == nil
 	})
 	return out
+}
+
+// skipInert drops leading statements that do nothing: `var x T` without a value and `_ = x`.
+func skipInert(body []ast.Stmt) []ast.Stmt {
+	for len(body) > 0 {
+		skip := false
+		switch st := body[0].(type) {
+		case *ast.DeclStmt:
+			if gd, ok := st.Decl.(*ast.GenDecl); ok && gd.Tok == token.VAR {
+				skip = true
+				for _, sp := range gd.Specs {
+					if len(sp.(*ast.ValueSpec).Values) != 0 {
+						skip = false
+					}
+				}
+			}
+		case *ast.AssignStmt:
+			if len(st.Lhs) == 1 && len(st.Rhs) == 1 && st.Tok == token.ASSIGN {
+				if id, ok := st.Lhs[0].(*ast.Ident); ok && id.Name == "_" {
+					if _, isId := st.Rhs[0].(*ast.Ident); isId {
+						skip = true
+					}
+				}
+			}
+		}
+		if !skip {
+			break
+		}
+		body = body[1:]
+	}
+	return body
 }
